@@ -9,7 +9,7 @@ THEOREMS = {
         "consume_next_is_exit", "consume_prunes_exactly_subtree", "done_stops_immediately", "error_stops_immediately",
         "nil_branch_is_error", "plain_walk", "structural_visits_all", "semantic_subset_structural",
         # instance side conditions on the regenerated tables (decide +kernel)
-        "extractor_recognised_everything", "semanticSubset_inst", "branchesComplete_inst", "copyTotal_inst",
+        "extractor_recognised_everything", "semanticSubset_inst", "branchesComplete_inst", "copyTotal_inst", "helpers_allocate_inst",
         "schemaCopyOK_partial_inst", "schemaCopyOK_current_fails",
         # current code: finding + partial + repaired
         "c11_copy_full_refuted", "c11_copy_partial", "schemaCopyOK_fixed", "c11_copy_fixed", "c11_walk",
@@ -115,9 +115,9 @@ SPEC = {
     "nontrivial": nontrivial,
     "finding_key": finding_key,
     "rule": "cases = the type registry check + random query-model values of EVERY node type built by reflection over the struct definitions "
-            "(4 seeds x depths 1-4 per type quick, 40 thorough; optionals set/unset, nil/empty/non-empty slices and maps, 0-4 AddError calls, opaque "
+            "(4 seeds x depths 1-4 per type quick, 40 thorough; optionals set/unset, nil/empty/EMPTY-BUT-ALLOCATED (len 0, cap 1-2, or drained through the model's own Add+Remove)/non-empty slices and maps, 0-4 AddError calls, opaque "
             "any payloads incl. slices/maps; every 4th value 'nilish': nil slice elements / typed-nil pointers in interfaces) + the model parsed from every "
-            "Cypher text of the repository corpora; per case the real Copy (DeepEqual + rendering equality, aliased fields by address, 3-phase mutate-and-recompare) and both "
+            "Cypher text of the repository corpora (every third one, thorough: every one, a second time with all expression lists drained through their own Remove: op qd); per case the real Copy (DeepEqual + rendering equality, aliased fields by address incl. the backing array of every slice with cap > 0 even when empty, 3-phase mutate-and-recompare where both sides append DIFFERENT elements) and both "
             "real walkers with the never-acting visitor plus 4 (thorough 16; all (k,act) when <= 24 callbacks) scripted visitors consume/done/error at the k-th callback, "
             "k uniform over the walk's length (splitmix64(VERIF_SEED)); the Lean model gets the real value as an S-expression and must predict copy equality, the aliased "
             "fields and every event log; suite c11pg: walk.PgSQL with the same scripts over the PostgreSQL AST the real translator emits for every corpus query, branch tree "
@@ -128,7 +128,8 @@ SPEC = {
     "trusted_base": [
         "tools/extract/goext mode c11 (go/ast, syntactic): schema, copy table, branch tables; cross-checked on every case by the harness (type names, field names and order from "
         "reflection must equal the extracted schema; aliased-field report and both walkers' event logs must equal what the model derives from the extracted tables)",
-        "graph.Kinds.Copy() clones the slice and graph.Kind values are immutable; builtin copy() of []string; Go slice/append semantics",
+        "graph.Kind values are immutable; builtin copy() of []string; Go slice/append semantics; the helper facts (every return of Copy, each copy(), copySlice, graph.Kinds.Copy "
+        "yields a fresh object or nil, never the argument) are read syntactically by tools/extract/goext/c11helpers.go and are a side condition of schemaCopyOK",
         "opaque any payloads (Literal.Value, Parameter.Value) are immutable scalars (the harness reports slice/map/pointer dynamic types it meets: counter copy.opaque_ref_payload; none in parsed corpus models)",
     ],
     "assumptions": [
